@@ -165,7 +165,23 @@ fn render_opts(m: &SrcModel, style: Style, model_names: bool, emit_where: bool) 
                 let d = v - v0;
                 s.push_str(&format!("    let {n} = {n0} {} {}\n", if d < 0.0 { "-" } else { "+" }, d.abs()));
             } else {
-                s.push_str(&format!("    let {n} = {}\n", if *v < 0.0 { format!("0 - {}", -v) } else { format!("{v}") }));
+                // a fraction with denominator 2 or 4 is written as a quotient of integers (constant arithmetic)
+                let quotient = |v: f64| -> Option<String> {
+                    for den in [2.0, 4.0] {
+                        let num = v * den;
+                        if num.fract() == 0.0 && v.fract() != 0.0 {
+                            return Some(format!("{} / {}", num, den));
+                        }
+                    }
+                    None
+                };
+                let text = match quotient(v.abs()) {
+                    Some(qt) if *v < 0.0 => format!("0 - {qt}"),
+                    Some(qt) => qt,
+                    None if *v < 0.0 => format!("0 - {}", -v),
+                    None => format!("{v}"),
+                };
+                s.push_str(&format!("    let {n} = {text}\n"));
             }
         }
     }
@@ -245,6 +261,16 @@ fn bounded(m: &SrcModel) -> bool {
 
 fn check_case(case: &Case, l: &mut Local) {
     let m = &case.model;
+    // a finite declared range of astronomic size is what the exact lowerings take as their big-M constant:
+    // failures on such models are reported under one call-site class instead of the per-model signature
+    let huge = m.vars.iter().any(|(_, d)| {
+        let (lo, hi) = d.bounds();
+        (lo.is_finite() && lo.abs() >= 1e15) || (hi.is_finite() && hi.abs() >= 1e15)
+    });
+    let case_signature = if huge { "huge-declared-range".to_string() } else { case.signature.clone() };
+    if huge {
+        l.count("models-with-huge-declared-range");
+    }
     if !bounded(m) {
         l.count("skipped:unbounded-declaration");
         return;
@@ -273,7 +299,7 @@ fn check_case(case: &Case, l: &mut Local) {
         l.sample(|| case_json("sample".into()));
         crate::core::set_phase(&format!("solve {sname}"));
         let result = crate::core::catch(|| RoocSolver::try_new(text.clone()).map(|s| s.solve_using(rooc::auto_solver)));
-        let sig = |k: &str| format!("{k}:{}", case.signature);
+        let sig = |k: &str| format!("{k}:{}", case_signature);
         let result = match result {
             Err(p) => {
                 l.violation(sig("panic"), p.clone(), case_json(p));
@@ -388,7 +414,7 @@ fn check_case(case: &Case, l: &mut Local) {
                     RoocSolverError::Linearization(_) => "linearization-error",
                     RoocSolverError::Solver(_) => "other-solver-error",
                 };
-                l.violation(format!("infeasible-text-answered-with-{kind}:{}", case.signature), format!("no assignment satisfies the text; expected the solver's infeasible verdict, got {e}"), case_json(format!("{e}")));
+                l.violation(format!("infeasible-text-answered-with-{kind}:{}", case_signature), format!("no assignment satisfies the text; expected the solver's infeasible verdict, got {e}"), case_json(format!("{e}")));
             }
             (Err(RoocSolverError::Solver(SolverError::Infeasible)), Some(_)) if nothing_known => l.count("witness-reference:infeasible-verdict-not-decided"),
             (Err(e), Some(_)) if nothing_known => {
@@ -398,7 +424,7 @@ fn check_case(case: &Case, l: &mut Local) {
                     RoocSolverError::Linearization(_) => "linearization-error",
                     RoocSolverError::Solver(_) => "other-solver-error",
                 };
-                l.violation(format!("text-answered-with-{kind}:{}", case.signature), format!("expected a solution or the infeasible verdict, got {e}"), case_json(format!("{e}")));
+                l.violation(format!("text-answered-with-{kind}:{}", case_signature), format!("expected a solution or the infeasible verdict, got {e}"), case_json(format!("{e}")));
             }
             (Err(e), Some(_)) => {
                 let kind = match &e {
@@ -408,7 +434,7 @@ fn check_case(case: &Case, l: &mut Local) {
                     RoocSolverError::Solver(SolverError::Unbounded) => "unbounded",
                     RoocSolverError::Solver(_) => "other-solver-error",
                 };
-                l.violation(format!("feasible-text-answered-with-{kind}:{}", case.signature), format!("a satisfying assignment exists but the answer is {e}"), case_json(format!("{e}")));
+                l.violation(format!("feasible-text-answered-with-{kind}:{}", case_signature), format!("a satisfying assignment exists but the answer is {e}"), case_json(format!("{e}")));
             }
         }
     }
@@ -421,7 +447,7 @@ pub fn run(mut run: Run) -> ! {
     let quick = run.quick();
     let depth = if quick { 2 } else { 3 };
     let ncores = crate::props::c01::cores().len();
-    run.rule = format!("generator-AST models over bounded declarations (objective family: min/max of {ncores} cores in every chain of <= {depth} contexts x 4 declaration sets x 5 side-constraint sets; constraint family: the C01 core-in-context constraints with bounded declarations and objective max x / satisfy) are rendered to source TEXT in 3 spelling classes (keywords with explicit operators; symbolic aliases && || ! -> <-> with implicit multiplication and 'subject to'; fractional literals moved into where-constants (later ones defined relative to the first) with named rows and all/any blocks; a sum of n terms divided by n is written as an avg block in the first and third class) and solved with RoocSolver::try_new(text).solve_using(auto_solver); judged by an independent interpreter of the AST (exact optimum over the discrete domains x breakpoints of the continuous variable); distinct = source texts; non-trivial = a solution was returned");
+    run.rule = format!("generator-AST models over bounded declarations (objective family: min/max of {ncores} cores in every chain of <= {depth} contexts x 4 declaration sets x 5 side-constraint sets; constraint family: the C01 core-in-context constraints with bounded declarations and objective max x / satisfy) are rendered to source TEXT in 3 spelling classes (keywords with explicit operators; symbolic aliases && || ! -> <-> with implicit multiplication and 'subject to'; fractional literals moved into where-constants (the first written as a quotient of integers, later ones defined relative to the first) with named rows and all/any blocks; a sum of n terms divided by n is written as an avg block in the first and third class) and solved with RoocSolver::try_new(text).solve_using(auto_solver); judged by an independent interpreter of the AST (exact optimum over the discrete domains x breakpoints of the continuous variable); distinct = source texts; non-trivial = a solution was returned");
     run.assume("reference interpreter = refsem evaluator + breakpoint enumeration: a piecewise-linear objective over a closed bounded piecewise-linear set attains its optimum at a breakpoint; exact for models with at most one continuous variable; tolerance 1e-6");
     run.assume("models with several continuous variables (families OD, D): the others range over a 9-point rational grid, so the reference is a witness (a feasible point with that objective exists): the returned values must satisfy the text, the reported objective must equal the text objective there and must not be worse than the witness; an infeasible verdict is only refuted by a witness");
     let n2 = c02::family_size_pub(depth.min(2), false);
@@ -455,6 +481,17 @@ pub fn run(mut run: Run) -> ! {
         run.family("A1-constraint-texts", family_a_size(1, false), move |i, l| check_case(&constraint_case(i, 1, false), l));
     } else {
         run.family("A-constraint-texts", na, move |i, l| check_case(&constraint_case(i, depth, false), l));
+    }
+    // extra declaration forms: single-point integer range; finite range of +-1e18 (used as big-M by the exact lowerings)
+    for (k, name) in [(0usize, "AX-single-point-integer-range"), (1, "AXH-huge-finite-range")] {
+        run.family(name, crate::props::c01::family_ax_size(), move |i, l| {
+            let mut c = crate::props::c01::family_ax(i, k);
+            if i % 2 == 0 {
+                c.model.sense = Sense::Max;
+                c.model.obj = var("x");
+            }
+            check_case(&c, l)
+        });
     }
     for k in ["texts", "answer:solution", "answer:infeasible", "reference:feasible", "reference:infeasible"] {
         run.require(k);
